@@ -355,17 +355,28 @@ func (c *c10ctx) ruleR1() {
 	for _, impl := range c.impls(first) {
 		okc := false
 		for _, st := range StoresTo(impl, c.anyT.Obj().Name(), c.stateField) {
-			// store must be dominated by a comparison of the state with Inactive
-			b := st.Block()
-			for d := b; d != nil; d = d.Idom() {
-				if id := d.Idom(); id != nil {
-					if iff, ok := id.Instrs[len(id.Instrs)-1].(*ssa.If); ok {
-						if bo, ok := iff.Cond.(*ssa.BinOp); ok && bo.Op == token.EQL {
-							if v, isC := constInt(stripConv(bo.Y)); isC && v == c.consts["Inactive"] {
-								if _, f, _, ok := FieldOf(bo.X); ok && f == c.stateField && id.Succs[0] == d {
-									okc = true
-								}
-							}
+			// store must be controlled by the outcome "state == Inactive" of a comparison, however
+			// it is spelled (==, != on the other side, operands swapped, negated)
+			for _, ci := range controllingIfs(st.Block()) {
+				cond := ci.If.Cond
+				side := ci.Branch
+				for {
+					u, isU := cond.(*ssa.UnOp)
+					if !isU || u.Op != token.NOT {
+						break
+					}
+					cond, side = u.X, 1-side
+				}
+				bo, ok := cond.(*ssa.BinOp)
+				if !ok || (bo.Op != token.EQL && bo.Op != token.NEQ) {
+					continue
+				}
+				for _, pair := range [][2]ssa.Value{{bo.X, bo.Y}, {bo.Y, bo.X}} {
+					v, isC := constInt(stripConv(pair[1]))
+					_, f, _, isF := FieldOf(pair[0])
+					if isC && v == c.consts["Inactive"] && isF && f == c.stateField {
+						if (bo.Op == token.EQL && side == 0) || (bo.Op == token.NEQ && side == 1) {
+							okc = true
 						}
 					}
 				}
@@ -784,6 +795,7 @@ func (c *c10ctx) ruleR3() {
 	}
 	nclose := 0
 	var stopFn *ssa.Function
+	inlineCloses := map[ssa.Instruction]bool{}
 	for _, fn := range p.LibFuncs() {
 		Instrs(fn, func(in ssa.Instruction) {
 			cc := CallOf(in)
@@ -792,6 +804,17 @@ func (c *c10ctx) ruleR3() {
 			}
 			if b, isB := cc.Value.(*ssa.Builtin); isB && b.Name() == "close" && isAbort(cc.Args[0]) {
 				nclose++
+				// the close-once idiom written in place: close in the default arm of a
+				// non-blocking select whose only case receives from the same channel
+				if closeOnceInline(in, isAbort) {
+					stopFn = fn
+					inlineCloses[in] = true
+					isL := func(in ssa.Instruction) bool { return mutexFieldOf(in, "Lock") == stateLock }
+					isU := func(in ssa.Instruction) bool { return mutexFieldOf(in, "Unlock") == stateLock }
+					st := lockStates(fn, isL, isU)
+					r.Check(st[in] == 2, "C10.R3c", "abort closed under the mutex in "+FuncName(fn), p.InstrPos(in), "close-once idiom executed with the state mutex held", "the abort channel is closed without holding the state mutex: two racing Stop calls can both pass the open-check")
+					return
+				}
 				r.Bad("C10.R3c", "raw close of "+abortField+" in "+FuncName(fn), p.InstrPos(in), "the abort channel must be closed through the close-once helper: concurrent or repeated Stop calls would panic on a double close")
 				return
 			}
@@ -854,6 +877,13 @@ func (c *c10ctx) ruleR3() {
 			Instrs(stopFn, func(in ssa.Instruction) {
 				if cc := CallOf(in); cc != nil && cc.StaticCallee() != nil && safeClosers[cc.StaticCallee()] {
 					if !InstrDominates(in, wait) {
+						good = false
+						msg = "the abort close does not precede the wait"
+					}
+				}
+				if inlineCloses[in] {
+					// the select that holds the close is passed on every path to the wait
+					if sel := enclosingSelect(in); sel == nil || !InstrDominates(sel, wait) {
 						good = false
 						msg = "the abort close does not precede the wait"
 					}
@@ -1056,4 +1086,30 @@ func (c *c10ctx) ruleR6() {
 	if n == 0 {
 		r.Bad("C10.R6", "handler that stops the source", "-", "no RPC handler invokes the data source's Stop")
 	}
+}
+
+// closeOnceInline: the close sits in the default arm of a non-blocking select whose only
+// case receives from the channel being closed (isCh).
+func closeOnceInline(closeInstr ssa.Instruction, isCh func(ssa.Value) bool) bool {
+	sel := enclosingSelect(closeInstr)
+	if sel == nil || sel.Blocking || len(sel.States) != 1 {
+		return false
+	}
+	st := sel.States[0]
+	return st.Dir == types.RecvOnly && isCh(st.Chan)
+}
+
+// enclosingSelect: the non-blocking select in whose default arm the instruction's block lies.
+func enclosingSelect(in ssa.Instruction) *ssa.Select {
+	var found *ssa.Select
+	Instrs(in.Parent(), func(x ssa.Instruction) {
+		sel, ok := x.(*ssa.Select)
+		if !ok || sel.Blocking {
+			return
+		}
+		if d := SelectArms(sel)[-1]; d != nil && (d == in.Block() || d.Dominates(in.Block())) {
+			found = sel
+		}
+	})
+	return found
 }
